@@ -659,7 +659,7 @@ func runCheck(c *fw.Ctx) error {
 	runTLC := func(name string, b bounds, sim bool, num, depth int, seed int64) ([]kase, error) {
 		var mine []kase
 		res, err := c.TLC(fw.TLCOpts{Dir: "spec/env", Module: "Resolve", Cfg: name, Files: map[string][]byte{name: b.cfg()}, Simulate: sim,
-			Num: num, Depth: depth, Seed: seed, Timeout: 9 * time.Minute, Coverage: os.Getenv("C16_COVER") != "", HeapMB: 1500, Workers: workers(sim),
+			Num: num, Depth: depth, Seed: seed, Timeout: 25 * time.Minute, Coverage: os.Getenv("C16_COVER") != "", HeapMB: 1500, Workers: workers(sim),
 			OnBeh: func(r json.RawMessage) {
 				var k kase
 				if err := json.Unmarshal(r, &k); err == nil {
